@@ -40,6 +40,8 @@ func (e *fExpr) wuffs() string {
 		return e.name
 	case "const":
 		return fmt.Sprint(e.k)
+	case "index":
+		return e.name + "[" + e.a.wuffs() + "]"
 	case "slice":
 		lo, hi := "", ""
 		if e.a != nil {
@@ -51,10 +53,10 @@ func (e *fExpr) wuffs() string {
 		return e.name + "[" + lo + ".." + hi + "]"
 	}
 	l, r := e.a.wuffs(), e.b.wuffs()
-	if e.a.op == "+" || e.a.op == "-" {
+	if e.a.op == "+" || e.a.op == "-" || e.a.op == "%" || e.a.op == ">>" {
 		l = "(" + l + ")"
 	}
-	if e.b.op == "+" || e.b.op == "-" {
+	if e.b.op == "+" || e.b.op == "-" || e.b.op == "%" || e.b.op == ">>" {
 		r = "(" + r + ")"
 	}
 	return l + " " + e.op + " " + r
@@ -124,6 +126,7 @@ pri func foo.bar!(x: base.u32[..= 100], y: base.u32[..= 7]) {
 	var j : base.u32[..= 1000]
 	var a : array[8] base.u8
 	var s : slice base.u8
+	var k : base.u8
 `
 
 func renderProgram(ss []fStmt) string {
@@ -157,6 +160,12 @@ func (e *fExpr) smt(st *spState) string {
 	case "const":
 		return fmt.Sprint(e.k)
 	}
+	switch e.op {
+	case "%":
+		return "(mod " + e.a.smt(st) + " " + e.b.smt(st) + ")"
+	case ">>":
+		return "(div " + e.a.smt(st) + " " + fmt.Sprint(1<<uint(e.b.k)) + ")"
+	}
 	return "(" + e.op + " " + e.a.smt(st) + " " + e.b.smt(st) + ")"
 }
 
@@ -184,6 +193,13 @@ func applySimple(s fStmt, st *spState) {
 			st.vals["j"] = "5"
 		}
 	case "assign":
+		if s.rhs.op == "index" {
+			// k = a[e]: 0 <= e < 8 is the checker's obligation; the element value is arbitrary
+			e := s.rhs.a.smt(st)
+			st.obl = append(st.obl, [2]string{"in bounds: " + s.rhs.wuffs(), "(and (<= 0 " + e + ") (< " + e + " 8))"})
+			st.vals["k"] = fmt.Sprintf("kf%d", len(st.obl)%16) // an arbitrary element value (kf0..kf15 are declared per batch)
+			return
+		}
 		if s.rhs.op == "slice" {
 			// lhs = base[lo .. hi]: the new length is hi - lo; 0 <= lo <= hi <= base length is the checker's obligation
 			blen := "8"
@@ -459,6 +475,63 @@ func factsPrograms(depth int, withIf bool) [][]fStmt {
 		outer.then = []fStmt{inner}
 		out = append(out, append(append([]fStmt(nil), pre...), outer))
 	}
+	// array indexing: k = a[e] under guards, after assignments and inside loops; the checker's
+	// acceptance of the program is checked against 0 <= e < 8 on every path reaching the probe
+	ix := func(e *fExpr) fStmt { return fStmt{kind: "assign", lhs: "k", op: "=", rhs: &fExpr{op: "index", name: "a", a: e}} }
+	idxs := []*fExpr{i, j, y, fb("+", i, fk(1)), fb("-", i, fk(1)), fb("-", fk(7), y), fb("-", fk(8), i), fb("+", i, y), fb("-", i, j), fb("%", x, fk(8)), fb("%", x, fb("+", y, fk(1))),
+		fb("%", i, fk(9)), fb(">>", x, fk(4)), fb(">>", x, fk(3)), fb("+", fb(">>", x, fk(5)), fk(4)), fb("%", fb("+", i, y), fk(8)), fk(7), fk(8), fb("-", j, y)}
+	ipres := [][]fStmt{nil, {as("i", "=", y)}, {as("i", "=", fk(7))}, {as("i", "=", x)}, {as("i", "=", y), as("j", "=", fk(3))}, {as("j", "=", y), as("i", "=", fb("+", j, fk(1)))}, {as("i", "=", fb("+", y, y))}}
+	iguards := []fStmt{
+		{kind: "if", cl: i, cmp: "<", cr: fk(8)},
+		{kind: "if", cl: i, cmp: "<=", cr: fk(7)},
+		{kind: "if", cl: i, cmp: "<=", cr: fk(8)},
+		{kind: "if", cl: fk(8), cmp: ">", cr: i},
+		{kind: "if", cl: fk(7), cmp: ">=", cr: i},
+		{kind: "if", cl: fk(8), cmp: ">=", cr: i},
+		{kind: "if", cl: i, cmp: ">", cr: fk(0)},
+		{kind: "if", cl: i, cmp: ">=", cr: j},
+		{kind: "if", cl: i, cmp: "<", cr: j},
+		{kind: "if", cl: j, cmp: "<=", cr: fk(8)},
+		{kind: "if", cl: i, cmp: "<>", cr: fk(8)},
+		{kind: "if", cl: i, cmp: "==", cr: fk(3)},
+	}
+	for _, pre := range ipres {
+		for _, e := range idxs {
+			out = append(out, append(append([]fStmt(nil), pre...), ix(e), probe))
+			for gi, g := range iguards {
+				g1 := g
+				g1.then = []fStmt{ix(e), probe}
+				out = append(out, append(append([]fStmt(nil), pre...), g1))
+				g2 := g
+				g2.then = []fStmt{as("i", "+=", fk(1)), ix(e), probe}
+				out = append(out, append(append([]fStmt(nil), pre...), g2))
+				g3 := g
+				g3.then = []fStmt{as("i", "=", fk(9))}
+				g3.els = []fStmt{ix(e), probe}
+				out = append(out, append(append([]fStmt(nil), pre...), g3))
+				// two guards nested
+				if gi < 6 {
+					inner := iguards[(gi+7)%len(iguards)]
+					inner.then = []fStmt{ix(e), probe}
+					g4 := g
+					g4.then = []fStmt{inner}
+					out = append(out, append(append([]fStmt(nil), pre...), g4))
+				}
+			}
+		}
+		// indexing inside loops
+		for _, e := range idxs[:9] {
+			w1 := fStmt{kind: "while", cl: i, cmp: "<", cr: fk(8)}
+			w1.then = []fStmt{ix(e), as("i", "+=", fk(1)), probe}
+			out = append(out, append(append([]fStmt(nil), pre...), w1))
+			w2 := fStmt{kind: "while", cl: i, cmp: "<", cr: fk(7)}
+			w2.then = []fStmt{as("i", "+=", fk(1)), ix(e), probe}
+			out = append(out, append(append([]fStmt(nil), pre...), w2))
+			w3 := fStmt{kind: "while", cl: i, cmp: "<", cr: fk(8), inv: [][3]interface{}{inv(j, "<=", i)}}
+			w3.then = []fStmt{ix(e), as("i", "+=", fk(1)), as("j", "=", i), probe}
+			out = append(out, append(append([]fStmt(nil), pre...), w3))
+		}
+	}
 	return out
 }
 
@@ -505,8 +578,8 @@ func runFacts(rc *runCtx) {
 	nobl, oblOK := 0, 0
 	falseFacts := map[string][]int{} // fact text -> program indexes
 	var firstWitness = map[string]string{}
-	names := []string{"args.x", "args.y", "this.f", "s.length()", "i", "j"}
-	smtName := map[string]string{"args.x": "cur_x", "args.y": "cur_y", "this.f": "cur_f", "s.length()": "cur_slen", "i": "cur_i", "j": "cur_j"}
+	names := []string{"args.x", "args.y", "this.f", "s.length()", "i", "j", "k"}
+	smtName := map[string]string{"args.x": "cur_x", "args.y": "cur_y", "this.f": "cur_f", "s.length()": "cur_slen", "i": "cur_i", "j": "cur_j", "k": "cur_k"}
 	type item struct {
 		idx   int
 		facts  []string
@@ -520,7 +593,7 @@ func runFacts(rc *runCtx) {
 			continue
 		}
 		reached++
-		st := &spState{vals: map[string]string{"args.x": "x0", "args.y": "y0", "this.f": "f0", "i": "0", "j": "0", "s.length()": "0"}}
+		st := &spState{vals: map[string]string{"args.x": "x0", "args.y": "y0", "this.f": "f0", "i": "0", "j": "0", "s.length()": "0", "k": "0"}}
 		pss, _ := spRun(progs[idx], []*spState{st})
 		if len(pss) == 0 {
 			continue
@@ -542,6 +615,7 @@ func runFacts(rc *runCtx) {
 			}
 			q = replaceIdent(q, "i", "cur_i")
 			q = replaceIdent(q, "j", "cur_j")
+			q = replaceIdent(q, "k", "cur_k")
 			qfacts = append(qfacts, fact)
 			qsmt = append(qsmt, q)
 		}
@@ -585,6 +659,9 @@ func runFacts(rc *runCtx) {
 			var sb strings.Builder
 			sb.WriteString("(declare-const x0 Int)(declare-const y0 Int)(declare-const f0 Int)\n")
 			sb.WriteString("(assert (and (<= 0 x0) (<= x0 100) (<= 0 y0) (<= y0 7) (<= 0 f0) (<= f0 100)))\n")
+			for kf := 0; kf < 16; kf++ {
+				fmt.Fprintf(&sb, "(declare-const kf%d Int)(assert (and (<= 0 kf%d) (<= kf%d 255)))\n", kf, kf, kf)
+			}
 			want := 0
 			for _, it := range chunk {
 				sb.WriteString(it.body)
@@ -674,7 +751,7 @@ func runFacts(rc *runCtx) {
 	rc.extra["fact_programs_reaching_the_probe"] = reached
 	rc.extra["facts_checked"] = nfacts
 	rc.extra["facts_unparsed_skipped"] = skipped
-	fmt.Printf("facts: %d programs (%d reach the probe), %d facts checked, %d proved, %d false, %d skipped; %d accepted slice expressions, %d in bounds\n", len(progs), reached, nfacts, proved, nfacts-proved, skipped, nobl, oblOK)
+	fmt.Printf("facts: %d programs (%d reach the probe), %d facts checked, %d proved, %d false, %d skipped; %d accepted slice/index expressions, %d in bounds\n", len(progs), reached, nfacts, proved, nfacts-proved, skipped, nobl, oblOK)
 	if len(progs) > 0 {
 		rc.samples = append(rc.samples, sample{"kind": "fact program", "program": texts[len(texts)/2], "facts": results[len(texts)/2].Facts})
 	}
